@@ -530,7 +530,9 @@ def run_mode(ctx, harness, driver, mode, total, shards=NCPU, extra="", drv_modes
     out = []
     k = len(drv_modes)
     for s, (cf, mfs) in enumerate(files):
-        if r1[s][0] != 0 or not os.path.exists(cf):
+        # exit status 3: the harness panicked outside a guarded call; the cases produced so far are in the file and the
+        # one being produced is closed with `OUT panic harness-crash ...` (it is judged like any other case)
+        if r1[s][0] not in (0, 3) or not os.path.exists(cf):
             out.append(("harness-failed", r1[s], hc[s]))
             continue
         bad = [j for j in range(k) if r2[s * k + j][0] != 0]
